@@ -183,7 +183,27 @@ def read_script(rng):
     return "script readv " + " ".join(toks)
 
 
-def random_case(rng, maxlen=40, faults=True, foreign=True, closes=True, profile="mixed", crossing=0.22, rebind=0.12, hookfree=0.0):
+def outlive_block(rng, mark):
+    """Functors the connection queued for itself are still pending when the owner destroys it (`ownerDestroy`: what
+    ~TcpServer does on the connection's loop; the queued functors hold weak references, so the object goes at once):
+    a write-complete notification (send taken whole / backlog drained), a high-water notification (crossing), a send
+    or a half-close queued from another thread.  The next iteration runs them on a dead object: nothing may happen."""
+    lines = []
+    m = mark if 0 < mark <= 65536 else 0
+    for _ in range(rng.choice([1, 1, 2])):
+        r = rng.random()
+        if r < 0.4:
+            lines += ["script write full", "act L send g:%d:%d piece" % (rng.randrange(1 << 30), rng.choice([1, 16, 1000]))]
+        elif r < 0.6 and m:
+            lines += ["script write EAGAIN", "act L send g:%d:%d piece" % (rng.randrange(1 << 30), m + rng.choice([0, 7]))]
+        elif r < 0.8:
+            lines.append("act F send g:%d:%d %s" % (rng.randrange(1 << 30), rng.choice([0, 5, 100]), rng.choice(["piece", "ptr", "buf"])))
+        else:
+            lines.append("act F %s" % rng.choice(["shutdown", "stopRead", "startRead"]))
+    return lines + ["ownerDestroy", "iter", "iter"]
+
+
+def random_case(rng, maxlen=40, faults=True, foreign=True, closes=True, profile="mixed", crossing=0.22, rebind=0.12, hookfree=0.0, outlive=0.06):
     """one history: header ops, then a random mix; mostly-valid (the connection is usually
     established first and kept up for a while).  `crossing` / `rebind`: share of the histories that contain a
     `crossing_block` / `rebind_block` at a random position; `hookfree`: share of the histories without callback
@@ -234,6 +254,8 @@ def random_case(rng, maxlen=40, faults=True, foreign=True, closes=True, profile=
             lines.append("advance %d" % rng.choice([1, 999, 1000, 50000, 3000000]))
         else:
             lines.append("iter")
+    if rng.random() < outlive:
+        return lines + outlive_block(rng, mark)
     # let things settle
     lines += ["iter", "iter"]
     if closes and rng.random() < 0.5:
